@@ -220,12 +220,13 @@ def value_ref(n, cx):
     return None
 
 
-def src_of(n, cx, moved=False):
-    """the payload source an argument expression denotes"""
+def src_of(n, cx, moved=False, fwd=False):
+    """the payload source an argument expression denotes.  For the value parameter the wrapper matters:
+    plain use = SVal (copied), std::forward<U>(p) = SValFwd, std::move(p) = SValMove (moves from the CALLER's lvalue too)"""
     n = strip(n)
     k = n.get("kind")
     if k == "CallExpr" and callee_name(n) in ("move", "forward"):
-        return src_of(inner(n)[-1], cx, moved or callee_name(n) == "move")
+        return src_of(inner(n)[-1], cx, moved or callee_name(n) == "move", fwd or callee_name(n) == "forward")
     v = value_ref(n, cx)
     if v == "Other":
         return "SOther %s" % ("true" if moved else "false")
@@ -234,16 +235,16 @@ def src_of(n, cx, moved=False):
     if k == "DeclRefExpr":
         rid = (n.get("referencedDecl") or {}).get("id")
         if cx.params.get(rid) == "value":
-            return "SVal"
+            return "SValMove" if moved else "SValFwd" if fwd else "SVal"
         return None
     if k == "CXXMemberCallExpr":
         # a user-defined conversion of the argument: q.operator P()
         c0 = inner(n)[0]
         if c0.get("kind") == "MemberExpr" and c0.get("name", "").startswith("operator ") and inner(c0) and len(inner(n)) == 1:
-            return src_of(inner(c0)[0], cx, moved)
+            return src_of(inner(c0)[0], cx, moved, fwd)
         return None
     if k == "CXXConstructExpr" and len(inner(n)) == 1:
-        return src_of(inner(n)[0], cx, moved)               # a copy / converting construction of the argument
+        return src_of(inner(n)[0], cx, moved, fwd)               # a copy / converting construction of the argument
     return None
 
 
@@ -311,7 +312,7 @@ def translate(sts, cx, top=True):
             if obj_of(lhs, cx) == "This":
                 # *this = x : which Optional::operator= ?  the value form takes a non-wrapper argument
                 a = src_of(rhs, cx)
-                ops.append("OAssignValue %s" % paren(a) if a and a != "SVal" or a == "SVal" else "OUnknown"); continue
+                ops.append("OAssignValue %s" % paren(a) if a else "OUnknown"); continue
             ops.append("OUnknown"); continue
         if k == "BinaryOperator" and s.get("opcode") == "=":
             lhs, rhs = inner(s)
@@ -532,11 +533,11 @@ def optional_facts(docs, notes):
                     e = strip(inner(e)[0])
                 if e.get("kind") == "ConditionalOperator":
                     c, a, b2 = inner(e)
-                    ok = cond_of(c, cx) == ("CHas", "This") and src_of(a, cx) == "SThis" and src_of(b2, cx) == "SVal"
+                    ok = cond_of(c, cx) == ("CHas", "This") and src_of(a, cx) == "SThis" and src_of(b2, cx) in ("SVal", "SValFwd")
             elif len(ss) == 2 and strip(ss[0]).get("kind") == "IfStmt":
                 p = inner(strip(ss[0]))
                 ok = cond_of(p[0], cx) == ("CHas", "This") and len(p) == 2 and len(stmts(p[1])) == 1 and \
-                    ret_src(stmts(p[1])[0]) == "SThis" and ret_src(ss[1]) == "SVal"
+                    ret_src(stmts(p[1])[0]) == "SThis" and ret_src(ss[1]) in ("SVal", "SValFwd")
             misc["om_value_or_guarded"] = ok
     except Exception as ex:
         notes.append("accessors: %r" % (ex,))
